@@ -75,6 +75,9 @@ type QParams struct {
 	Perio bool `json:"perio,omitempty"`
 	// Buffered: so many packets have been handed up for buffering for one PDR before (its queue holds 512; a 513th is dropped)
 	Buffered int `json:"buffered,omitempty"`
+	// Tick: instead, so many sessions have a URR of one and the same measurement period and one tick of that period is served
+	// (see runTickArranged)
+	Tick int `json:"tick,omitempty"`
 }
 
 type Result struct {
@@ -725,10 +728,120 @@ func runPerioArranged(p Params) (res Result) {
 	return
 }
 
+// runTickArranged: q.Tick sessions each have one periodic URR (an id of its own) of the same period; one tick of that period is
+// served by the real periodic server, which asks the data plane for all of them in one go and hands one notification per
+// session to the PFCP server.  Every session's SMF-side SEID must receive exactly one Session Report Request, carrying the
+// usage report of its own URR and nothing else (under -race: without a data race between the hand-overs).
+func runTickArranged(p Params) (res Result) {
+	q := *p.Queued
+	d, err := fullstack.NewDriver(fullstack.Opts{})
+	if err != nil {
+		res.Inconclusive = err.Error()
+		return
+	}
+	st, err := stack.New(stack.Opts{Driver: d.G, Nodes: 1, MaxRetrans: 0, Net2: stack.Net2FromEnv(117)})
+	if err != nil {
+		res.Inconclusive = err.Error()
+		return
+	}
+	r := stack.NewRunner(st, nil)
+	if o := r.Step(stack.Op{Kind: "assoc", Peer: 0, Node: 0, Sess: -1}); o.Dead != nil || o.Stuck {
+		res.Inconclusive = "prefix failed"
+		return
+	}
+	urrOf := map[uint64]uint32{} // CP SEID -> the session's URR
+	for i := 0; i < q.Tick; i++ {
+		urr := uint32(10 + i)
+		cp := uint64(0x100 + i)
+		rules := []stack.RuleOp{{Verb: "create", Kind: "URR", ID: urr, Method: 2, Trig: 0x03, Period: 3600}, {Verb: "create", Kind: "PDR", ID: 1, Prec: 1, URRs: []uint32{urr}}}
+		if o := r.Step(stack.Op{Kind: "est", Peer: 0, Node: 0, Sess: -1, CP: cp, Rules: rules}); o.Dead != nil || o.Stuck || o.NewSess < 0 || !r.Sess[o.NewSess].Known {
+			res.Inconclusive = "prefix session not established"
+			return
+		}
+		urrOf[cp] = urr
+	}
+	d.G.VerifPerio().VerifTick(3600 * time.Second)
+	got := map[uint64][]uint32{} // CP SEID -> URR ids of the usage reports received, one entry per report
+	nreq := map[uint64]int{}
+	seen := map[uint32]bool{}
+	total := 0
+	collect := func() bool {
+		o := r.Step(stack.Op{Kind: "hb", Peer: 0, Sess: -1})
+		if o.Dead != nil || o.Stuck {
+			return false
+		}
+		for _, sr := range o.SRRs {
+			if seen[sr.Seq] {
+				continue
+			}
+			seen[sr.Seq] = true
+			nreq[sr.SEID]++
+			total++
+			for _, u := range stack.UsageReports(sr.Msg) {
+				got[sr.SEID] = append(got[sr.SEID], u.URR)
+			}
+		}
+		r.Pending[0] = nil
+		return true
+	}
+	for t1 := time.Now(); time.Since(t1) < 10*time.Second && total < q.Tick; {
+		if !collect() {
+			break
+		}
+		time.Sleep(2 * time.Millisecond)
+	}
+	time.Sleep(50 * time.Millisecond)
+	collect()
+	res.Posted, res.Requests = int64(q.Tick), int64(q.Tick)
+	var bad string
+	for cp, urr := range urrOf {
+		if nreq[cp] != 1 || len(got[cp]) != 1 || got[cp][0] != urr {
+			bad = fmt.Sprintf("%d sessions with one periodic URR each (same period), one tick: the session with CP SEID %#x (URR %d) received %d Session Report Request(s) with usage reports for URRs %v; per CP SEID: requests %v, reports %v",
+				q.Tick, cp, urr, nreq[cp], got[cp], nreq, got)
+			break
+		}
+	}
+	for cp := range nreq {
+		if _, ok := urrOf[cp]; !ok && bad == "" {
+			bad = fmt.Sprintf("one tick: a Session Report Request arrived for CP SEID %#x, which no session has", cp)
+		}
+	}
+	st.Srv.Stop()
+	d.Detach()
+	done := make(chan struct{})
+	go func() { st.WaitGroup().Wait(); close(done) }()
+	select {
+	case <-done:
+	case <-time.After(15 * time.Second):
+		state, frame, _ := stack.LoopState()
+		res.Key = "stop-hang:" + frame
+		res.Violation = fmt.Sprintf("Stop() after one periodic tick over %d sessions: 15 s later the server's goroutines have not finished (event loop: %s at %s)", q.Tick, state, frame)
+		return
+	}
+	if err := d.Close(); err != nil {
+		res.Key = "stop-hang:internal/forwarder/perio"
+		res.Violation = fmt.Sprintf("10 s after the driver was closed its periodic server or a ticker goroutine is still running: %v", err)
+		return
+	}
+	if st.Dead != nil {
+		res.Key, res.Violation = st.Dead.Key, fmt.Sprintf("UPF fatal exit: %.600s", st.Dead.Msg)
+		return
+	}
+	if bad != "" {
+		res.Key, res.Violation = "exactly-once-perio-tick", bad
+		return
+	}
+	res.OK = true
+	return
+}
+
 func runQueued(p Params) (res Result) {
 	q := *p.Queued
 	if q.Perio {
 		return runPerioArranged(p)
+	}
+	if q.Tick > 0 {
+		return runTickArranged(p)
 	}
 	d := stack.NewModelDriver()
 	gate := make(chan struct{})
@@ -1056,6 +1169,10 @@ func account(p Params, r Result, races []string, out string) {
 			vcore.E.Class("stop_with_a_tick_waiting_for_the_report_queue_and_a_periodic_urr_being_removed")
 			vcore.E.NonTrivial(vcore.JSON(p))
 		}
+		if p.Queued.Tick > 1 {
+			vcore.E.Class("one_periodic_tick_over_several_sessions")
+			vcore.E.NonTrivial(vcore.JSON(p))
+		}
 		if p.Queued.Buffered > 512 {
 			vcore.E.Class("stop_after_a_packet_queue_overflowed")
 		}
@@ -1086,6 +1203,10 @@ func account(p Params, r Result, races []string, out string) {
 }
 
 func gen(t *rapid.T) Params {
+	if rapid.IntRange(0, 11).Draw(t, "tick") == 0 {
+		return Params{Procs: rapid.SampledFrom([]int{2, 4, 16}).Draw(t, "procs"), RetransMs: 2, MaxRetrans: 1, StopMode: "arranged",
+			Queued: &QParams{Tick: rapid.SampledFrom([]int{2, 3, 5, 20, 60}).Draw(t, "tick_sessions")}}
+	}
 	if rapid.IntRange(0, 3).Draw(t, "arranged") == 0 {
 		return Params{Procs: rapid.SampledFrom([]int{2, 4, 16}).Draw(t, "procs"), RetransMs: rapid.IntRange(1, 5).Draw(t, "retrans"), MaxRetrans: rapid.IntRange(0, 3).Draw(t, "maxretrans"), StopMode: "arranged",
 			Queued: &QParams{Rcv: rapid.SampledFrom([]int{0, 1, 100, 511, 512, 513, 600, 900}).Draw(t, "rcv"), Reports: rapid.SampledFrom([]int{0, 0, 5, 128, 129, 300}).Draw(t, "reports"),
@@ -1126,7 +1247,7 @@ func TestC17(t *testing.T) {
 		return
 	}
 	// stops whose in-flight work the harness arranges: receive queue at, below and beyond its capacity
-	for _, qp := range []QParams{{Rcv: 512, ReleaseMs: 20}, {Rcv: 700, Reports: 200, ReleaseMs: 2}, {Rcv: 40, Reports: 129}, {Rcv: 10, Buffered: 513, ReleaseMs: 2}, {Perio: true, ReleaseMs: 0}, {Perio: true, ReleaseMs: 50}} {
+	for _, qp := range []QParams{{Rcv: 512, ReleaseMs: 20}, {Rcv: 700, Reports: 200, ReleaseMs: 2}, {Rcv: 40, Reports: 129}, {Rcv: 10, Buffered: 513, ReleaseMs: 2}, {Perio: true, ReleaseMs: 0}, {Perio: true, ReleaseMs: 50}, {Tick: 3}, {Tick: 12}} {
 		qp := qp
 		p := Params{Procs: 4, RetransMs: 2, MaxRetrans: 1, StopMode: "arranged", Queued: &qp}
 		r, races, out := child(p)
